@@ -29,6 +29,7 @@ from typing import Callable, Optional, Union, Any  # noqa: F401
 
 from ssh_audit.banner import Banner
 from ssh_audit.product import Product
+from ssh_audit.utils import Utils
 
 
 class Software:
@@ -72,9 +73,9 @@ class Software:
             oversion, opatch = mx.group(1), mx.group(2).strip()
         else:
             oversion, opatch = other, ''
-        if self.version < oversion:
+        if Utils.version_key(self.version) < Utils.version_key(oversion):
             return -1
-        elif self.version > oversion:
+        elif Utils.version_key(self.version) > Utils.version_key(oversion):
             return 1
         spatch = self.patch or ''
         if self.product == Product.DropbearSSH:
